@@ -330,6 +330,12 @@ def run_model(model, tokens, rt):
     if kind == 'count':
         _, tok, c = model
         return (1 if sum(1 for t in tokens if t == tok) >= c else 0, '', '')
+    if kind == 'anyof':
+        # accept exactly the files that contain one of the listed token
+        # subsequences (written blank-separated)
+        text = ' ' + ' '.join(tokens) + ' '
+        return (1 if any((' ' + sh + ' ') in text for sh in model[1]) else 0,
+                '', '')
     if kind == 'and':
         rs = [run_model(m, tokens, rt) for m in model[1:]]
         return (1 if all(r[0] for r in rs) else 0, '', '')
